@@ -87,9 +87,9 @@ a_real a_mf_tri(a_real x, a_real a, a_real b, a_real c)
             x = 0;
         }
     }
-    else
+    else if (x > b)
     {
-        if (x < c) /* b <= x < c */
+        if (x < c) /* b < x < c */
         {
             x = (c - x) / (c - b);
         }
@@ -97,6 +97,10 @@ a_real a_mf_tri(a_real x, a_real a, a_real b, a_real c)
         {
             x = 0;
         }
+    }
+    else /* x == b: the peak, also when a shoulder has zero width */
+    {
+        x = 1;
     }
     return x;
 }
@@ -107,11 +111,11 @@ a_real a_mf_lins(a_real x, a_real a, a_real b)
     {
         x = 0;
     }
-    else if (x > b)
+    else if (x >= b) /* also a == b: no 0/0 on a zero-width ramp */
     {
         x = 1;
     }
-    else /* a <= x <= b */
+    else /* a <= x < b */
     {
         x = (x - a) / (b - a);
     }
@@ -124,11 +128,11 @@ a_real a_mf_linz(a_real x, a_real a, a_real b)
     {
         x = 1;
     }
-    else if (x > b)
+    else if (x >= b) /* also a == b: no 0/0 on a zero-width ramp */
     {
         x = 0;
     }
-    else /* a <= x <= b */
+    else /* a <= x < b */
     {
         x = (b - x) / (b - a);
     }
